@@ -80,6 +80,11 @@ Record obs := {
   o_buckets : list bobs      (* in the order of [k_buckets] *)
 }.
 
+(** C34: the REAL recovery of the image of prefix [d_k1], itself traced ([d_rtrace]), and what a second
+    recovery (WAL number [d_own3]) did on the image "first d_k1 calls of the run + first j calls of the
+    first recovery" for the prefixes j listed in [d_obs] ([o_k] = j) *)
+Record dbl := { d_k1 : nat; d_own3 : wid; d_rtrace : list event; d_obs : list obs }.
+
 Record case := {
   k_tgid0 : Z;                         (* first TG id (time.Now() of the run) *)
   k_owner : Z; k_owner2 : Z;           (* instance ids of the traced run and of the recovering run *)
@@ -88,7 +93,8 @@ Record case := {
   k_clen : list (list record * Z);     (* stored length of every block the real encoder produced *)
   k_sched : list sev;
   k_trace : list event;
-  k_obs : list obs
+  k_obs : list obs;
+  k_double : list dbl
 }.
 
 (** Stored length of a block: the real encoder's length when the harness recorded one for this content;
@@ -144,7 +150,24 @@ Definition trace_ok (k : case) : bool :=
   | _ => false
   end.
 
-Definition agrees (k : case) : bool := trace_ok k && forallb (obs_ok k) (k_obs k).
+(** double crash: the model's recovery issues exactly the recorded calls, and a second recovery on every
+    explored prefix of them behaves like the real one *)
+Definition dbl_ok (k : case) (d : dbl) : bool :=
+  let cl := clen_of (k_clen k) in
+  let im1 := crash_img (k_trace k) (d_k1 d) in
+  let '(evs, _) := recover cl (k_own2 k) (k_owner2 k) im1 in
+  match first_diff evs (d_rtrace d) 0 with None => true | Some _ => false end
+  && forallb (fun o =>
+       let im2 := apply_events im1 (firstn (o_k o) (d_rtrace d)) in
+       let '(evs2, out2) := recover cl (d_own3 d) 3333 im2 in
+       Nat.eqb (model_class out2) (o_class o)
+       && match out2 with
+          | StartOk => all2 (bobs_ok (apply_events im2 evs2)) (k_buckets k) (o_buckets o)
+          | StartError => true
+          end) (d_obs d).
+
+Definition agrees (k : case) : bool :=
+  trace_ok k && forallb (obs_ok k) (k_obs k) && forallb (dbl_ok k) (k_double k).
 
 (** diagnostics for the driver: where the trace first differs / which prefixes disagree *)
 Definition trace_diff (k : case) : option nat :=
@@ -219,3 +242,48 @@ Definition c01_prop (k : case) : bool :=
   forallb (fun o => implb (guard_window (k_trace k) (o_k o)) (c01_at k (o_k o))) (k_obs k).
 Definition c02_prop (k : case) : bool :=
   forallb (fun o => implb (guard_window (k_trace k) (o_k o)) (c02_at k (o_k o))) (k_obs k).
+
+(** C05: no commit lost (= C01's conclusion) and the ids of the replayed TGs ascend *)
+Fixpoint ascending (l : list Z) : bool :=
+  match l with
+  | a :: ((b :: _) as r) => (a <? b) && ascending r
+  | _ => true
+  end.
+Definition c05_prop (k : case) : bool :=
+  forallb (fun o => implb (guard_window (k_trace k) (o_k o))
+                          (c01_at k (o_k o) && ascending (map fst (unchecked (k_trace k) (o_k o))))) (k_obs k).
+
+(** C35: the schedule ends with a shutdown; on the final image nothing is replayed and every bucket's query
+    returns what it returned on the final image itself *)
+Definition qres_eqb (a b : qres) : bool :=
+  match a, b with
+  | QRows r, QRows r' => rows_eqb r r'
+  | QErr, QErr | QFatal, QFatal => true
+  | _, _ => false
+  end.
+Definition ends_with_shutdown (s : list sev) : bool :=
+  match rev s with SShutdown _ :: _ => true | _ => false end.
+Definition c35_prop (k : case) : bool :=
+  let n := length (k_trace k) in
+  let im := crash_img (k_trace k) n in
+  let cl := clen_of (k_clen k) in
+  ends_with_shutdown (k_sched k)
+  && model_start_ok k n
+  && match unchecked (k_trace k) n with [] => true | _ => false end
+  && forallb (fun b => qres_eqb (bucket_rows (recovered cl (k_own2 k) (k_owner2 k) im) b) (bucket_rows im b)) (k_buckets k).
+
+(** C34: after the first recovery only the new WAL exists; the first recovery's unlink comes last for the old
+    WAL; a second start-up on the completed image replays nothing (files unchanged) *)
+Definition c34_prop (k : case) : bool :=
+  forallb (fun d =>
+    let cl := clen_of (k_clen k) in
+    let im1 := crash_img (k_trace k) (d_k1 d) in
+    implb (guard_crash (k_trace k) (d_k1 d))
+      (let '(evs, out) := recover cl (k_own2 k) (k_owner2 k) im1 in
+       let im2 := apply_events im1 evs in
+       match out with StartOk => true | StartError => false end
+       && list_eqb N.eqb (map fst (i_wals im2)) [k_own2 k]
+       && (let '(evs3, out3) := recover cl (d_own3 d) 3333 im2 in
+           match out3 with StartOk => true | StartError => false end
+           && forallb (fun b => qres_eqb (bucket_rows (apply_events im2 evs3) b) (bucket_rows im2 b)) (k_buckets k))))
+    (k_double k).
